@@ -2,7 +2,7 @@
 From Coq Require Import ZArith Reals List Lia Lra.
 From Flocq Require Import Core BinarySingleNaN.
 From GCL Require Proofs.TablesOk.
-From GCL Require Import Base.F64 Base.F64Facts Model.Measure Model.Limits Proofs.AimdProofs Proofs.GradSafe Proofs.GradDrop.
+From GCL Require Import Base.F64 Base.F64Facts Model.Measure Model.Limits Proofs.AimdProofs Proofs.VegasSafe Proofs.GradSafe Proofs.GradDrop Proofs.VegasDrop Proofs.DropRuns.
 
 (* AIMD moves exactly to max(1, min(limit-1, floor(limit x ratio))), the product being the binary64 product
    (round-to-nearest-even of the real product) that the implementation computes. *)
@@ -33,3 +33,47 @@ Theorem C06_gradient_nonincrease g Mx s o : GInv g Mx -> gsample_ok s -> s_drop 
   grad_step g s = Some o -> (R (g_est (o_st o)) <= R (g_est g))%R.
 Proof. exact (grad_drop_nonincrease g Mx s o). Qed.
 Print Assumptions C06_gradient_nonincrease.
+
+(* ... and this holds after ANY sample history: the side conditions (invariant, estimate >= 4, smoothing) are preserved by every step *)
+Theorem C06_gradient_after_any_history g Mx pre g' s o :
+  GD g Mx -> Forall gsample_ok pre -> grad_run g pre = Some g' ->
+  gsample_ok s -> s_drop s = true -> grad_step g' s = Some o ->
+  (grad_est (o_st o) <= grad_est g')%Z.
+Proof. exact (grad_drop_after_any_history g Mx pre g' s o). Qed.
+Print Assumptions C06_gradient_after_any_history.
+
+(* Vegas: from every state satisfying the safety invariant VInv (which carries smoothing >= 2^-50 x M) a drop sample - whether it
+   probes, lowers the baseline or reaches updateEstimatedLimit - never raises the reported estimate, and never raises the stored
+   binary64 estimate once that is at least 7/4 (below, the reported estimate is already at the floor 1 and stays there). *)
+Theorem C06_vegas_nonincrease v M s o : VInv v M -> sample_ok s -> s_drop s = true ->
+  vegas_step v s = Some o ->
+  (vegas_est (o_st o) <= vegas_est v)%Z /\ (7/4 <= R (v_est v) -> R (v_est (o_st o)) <= R (v_est v))%R.
+Proof. exact (vegas_drop_nonincrease v M s o). Qed.
+Print Assumptions C06_vegas_nonincrease.
+
+Theorem C06_vegas_after_any_history v M pre v' s o :
+  VInv v M -> Forall sample_ok pre -> vegas_run v pre = Some v' ->
+  sample_ok s -> s_drop s = true -> vegas_step v' s = Some o ->
+  (vegas_est (o_st o) <= vegas_est v')%Z.
+Proof. exact (vegas_drop_after_any_history v M pre v' s o). Qed.
+Print Assumptions C06_vegas_after_any_history.
+
+(* a sustained run of drops is monotone: the reported estimates never go back up (and no step panics) *)
+Theorem C06_vegas_drop_run_monotone M l v : VInv v M -> Forall (fun s => sample_ok s /\ s_drop s = true) l ->
+  nonincreasing (vegas_trace v l).
+Proof. exact (vegas_drop_run_monotone M l v). Qed.
+Print Assumptions C06_vegas_drop_run_monotone.
+
+(* non-vacuity: a Gradient limit built with initial 50, min 1, max 1000, smoothing 1.0, tolerance 2.0 satisfies the premises *)
+Example C06_gradient_premises_ok cnt0 : GD (grad_init 50 1 1000 1000 one two cnt0) 1000.
+Proof.
+  assert (B1: orb (flt one zero) (fgt one one) = false) by (vm_compute; reflexivity).
+  assert (B2: flt two zero = false) by (vm_compute; reflexivity).
+  destruct R_one as [F1 E1]. destruct R_zero as [F0 E0]. destruct (of_int_exact 2) as [F2 E2]; [lia|]. destruct (of_int_exact 50) as [F50 E50]; [lia|].
+  unfold GD, GInv, grad_init; cbn [g_est g_noload g_min g_max g_s g_tol]. rewrite B1, B2. cbn [Z.leb Z.ltb Z.compare Pos.compare Pos.compare_cont].
+  fold one two zero. split; [split; [constructor; cbn [g_est g_noload g_min g_max g_s g_tol]; try lia; auto|]|].
+  - rewrite E1. lra.
+  - change two with (of_int 2). rewrite E2. simpl. lra.
+  - repeat split; auto; rewrite ?E50, ?E0; simpl; lra.
+  - rewrite E50, E1. simpl. lra.
+Qed.
